@@ -43,7 +43,7 @@ TraceObs ==
        (CASE want = "logical" -> got = "logical"
           [] want = "missing" -> got = "missing"
           [] want = "err" -> got = "err"
-          [] want = "differs_or_err" -> got \in {"differs", "err"}
+          [] want = "any_but_checked" -> got \in {"logical", "differs", "err"}
           [] OTHER -> FALSE) = TRUE
   /\ UNCHANGED vars
 TraceCheck ==
